@@ -223,13 +223,28 @@ func memRunNode(t memTask, hist []model.Op, bound int, viol *[]drv.Violation, ru
 		// at most maxPts points per operation: the first ones and the last ones (loops over
 		// rows hit the same site once per row)
 		maxPts := 14
-		if bound >= 2 {
+		if bound >= 2 && len(hist) <= 2 {
 			maxPts = 40
 		}
+		var sel []int
 		for k := lastStart; k < lastEnd; k++ {
 			if lastEnd-lastStart > maxPts && k-lastStart >= maxPts-4 && lastEnd-k > 4 {
 				continue
 			}
+			sel = append(sel, k)
+		}
+		// pairs of GC points for histories up to depth 3 (single points at the full depth); at depth 3 among
+		// the first 6 and last 4 selected points
+		pairSel := sel
+		if len(hist) == 3 && len(sel) > 10 {
+			pairSel = append(append([]int{}, sel[:6]...), sel[len(sel)-4:]...)
+		}
+		inPair := map[int]bool{}
+		for _, k := range pairSel {
+			inPair[k] = true
+		}
+	points:
+		for _, k := range sel {
 			*points++
 			gcReset(map[int]bool{k: true})
 			_, v := engine.RunHistory(t.sc, t.cfg, t.prelude, hist)
@@ -238,15 +253,17 @@ func memRunNode(t memTask, hist []model.Op, bound int, viol *[]drv.Violation, ru
 				add(v, fmt.Sprintf("GC at point %d (of %d..%d in the last op)", k, lastStart, lastEnd))
 				break
 			}
-			if bound >= 2 && len(hist) <= 3 {
-				// pairs of GC points for histories up to depth 3 (single points at the full depth)
-				for k2 := k + 1; k2 < lastEnd; k2++ {
+			if bound >= 2 && len(hist) <= 3 && inPair[k] {
+				for _, k2 := range pairSel {
+					if k2 <= k {
+						continue
+					}
 					gcReset(map[int]bool{k: true, k2: true})
 					_, v := engine.RunHistory(t.sc, t.cfg, t.prelude, hist)
 					*runs++
 					if v != nil {
 						add(v, fmt.Sprintf("GC at points %d and %d", k, k2))
-						break
+						break points
 					}
 				}
 			}
@@ -302,7 +319,7 @@ func init() {
 
 	Registry["C11"] = func(t Tier) *Check {
 		chk := &Check{ID: "C11",
-			Rule:   "histories = all histories up to depth 3 (quick) / 4 (thorough) over moves, uninitialised adds (nil callbacks), copies, batch moves, Reset and Shrink on pointer-bearing (pointer, slice, string, map), zero-size and large components at capacity 1, and over batches of 1/64/65/70 rows (both table-reset strategies) followed by removal/reset and uninitialised re-creation. Per history: (a) every component added without a value reads as zero and all values equal the model; (b) in a binary built with the gc overlay (a hook at the entry of every function of table.go, column.go, util.go) the history is re-executed once per GC point inside its last operation (thorough: every pair) with two forced collections at that point, under GODEBUG=clobberfree=1: all pointees must still hold the model's values; (c) weak pointers to every pointee: after one forced collection data referenced only by removed components must be gone and data of live components must not; states = histories, non-trivial = GC points exercised",
+			Rule:   "histories = all histories up to depth 3 (quick) / 4 (thorough) over moves, uninitialised adds (nil callbacks), copies, batch moves, Reset and Shrink on pointer-bearing (pointer, slice, string, map), zero-size and large components at capacity 1, and over batches of 1/64/65/70 rows (both table-reset strategies) followed by removal/reset and uninitialised re-creation. Per history: (a) every component added without a value reads as zero and all values equal the model; (b) in a binary built with the gc overlay (a hook at the entry of every function of table.go, column.go, util.go) the history is re-executed once per GC point inside its last operation (at most 14 points per operation: the first 10 and last 4; thorough: also every pair of up to 40 points for histories up to depth 2 and of 10 points at depth 3) with two forced collections at that point, under GODEBUG=clobberfree=1: all pointees must still hold the model's values; (c) weak pointers to every pointee: after one forced collection data referenced only by removed components must be gone and data of live components must not; states = histories, non-trivial = GC points exercised",
 			Assume: []string{"a missing write barrier is only observable while the collector marks concurrently with the copy; a forced collection at a hook point is not concurrent, so that part of the quantifier ('GC running concurrently at any point') is covered at the granularity of the inserted GC points only"},
 		}
 		chk.Special = func(tier Tier, rep *engine.Report) error {
